@@ -596,6 +596,49 @@ _RTF_REGEX_GLOBALS = ("_RE_UNICODE", "_RE_HEX_ESCAPE", "_RE_CONTROL_WORD", "_RE_
                       "_RE_MULTI_NEWLINE", "_RE_CONTROL_SEQ", "_RE_INFO", "_RE_INFO_ALT")
 
 
+def _combine_surrogates_model(text):
+    """rtf_extractor._combine_surrogates on symbolic strings (the real one goes through the UTF-16
+    codec): a high surrogate directly followed by a low one is the code point they encode, every
+    other code in D800..DFFF becomes U+FFFD; each test on a symbolic code is a solver fork.
+    Compared with the real function on a lattice of concrete strings (_combine_selftest)."""
+    cs = _codes(text)
+
+    def between(c, lo, hi):
+        if isinstance(c, int):
+            return lo <= c <= hi
+        return _truth(z3.And(c.z >= lo, c.z <= hi))
+    out, i = [], 0
+    while i < len(cs):
+        c = cs[i]
+        if between(c, 0xD800, 0xDBFF):
+            if i + 1 < len(cs) and between(cs[i + 1], 0xDC00, 0xDFFF):
+                out.append(0x10000 + (c - 0xD800) * 1024 + (cs[i + 1] - 0xDC00))
+                i += 2
+                continue
+            out.append(0xFFFD)
+        elif between(c, 0xDC00, 0xDFFF):
+            out.append(0xFFFD)
+        else:
+            out.append(c)
+        i += 1
+    return S.CharStr(out)
+
+
+def _combine_selftest(real):
+    import itertools
+    alphabet = ["a", "\ud800", "\udbff", "\udc00", "\udfff", "\ufeff", "\ufffe", "\U0001f600", "\ud83d", "\ude00"]
+    n = 0
+    for k in range(0, 5):
+        for t in itertools.product(alphabet, repeat=k):
+            sub = "".join(t)
+            a = real(sub)
+            b = "".join(chr(c) for c in _combine_surrogates_model(sub).c)
+            if a != b:
+                raise AssertionError(f"model of _combine_surrogates differs on {sub!r}: {a!r} vs {b!r}")
+            n += 1
+    return n
+
+
 class _Late:
     """callable global of a lifted namespace whose target is set per explored path"""
 
@@ -620,6 +663,10 @@ def _rtf_lifted_parser(ctx, chr_model):
         ns = dict(int=S.IntShadow, chr=L["chr"], re=SymReModule, len=len)
         for g in _RTF_REGEX_GLOBALS:
             ns[g] = SymRegex(getattr(m, g))
+        if hasattr(m, "_combine_surrogates"):
+            _combine_selftest(m._combine_surrogates)
+            L["combine"] = _Late()
+            ns["_combine_surrogates"] = L["combine"]
         for name in ("_strip_rtf_full_with_pages", "_remove_ignorable_groups", "_is_skip_destination",
                      "_strip_rtf_simple", "_extract_metadata"):
             L[name] = lift.lift(getattr(m._RtfParser, name), **ns)
@@ -631,6 +678,10 @@ def _rtf_lifted_parser(ctx, chr_model):
                                 [re.compile(r"\{\\title\s+([^}]*)\}", re.I | re.S),
                                  re.compile(r"\{\\[*]?\\?category\s+([^}]*)\}", re.I | re.S)])
     L["chr"].target = chr_model
+    if L.get("combine"):
+        # twin: without the repair step the query must find the surrogate again
+        L["combine"].target = (lambda t: t) if ctx.perturb == "without_combine_surrogates" else _combine_surrogates_model
+        ctx.shadows_used.add("rtf_extractor._combine_surrogates -> code-walking model (validated against the real function)")
     p = object.__new__(m._RtfParser)
     p.data = b""
     p.pages = []
@@ -663,6 +714,9 @@ def k3_unicode(ctx):
     else:
         free = _alphabet(ctx, ctx.fresh_chars("t", n, 1, 126), _K3_SINGLES, _K3_RANGES)
     text = prefix + free + ctx.params.get("suffix", "")
+    if ctx.params.get("len2"):
+        # a second escape right behind the first (UTF-16 pairs are written as two \\uN)
+        text = text + "\\u" + _alphabet(ctx, ctx.fresh_chars("t2", ctx.params["len2"], 1, 126), "-", _K3_RANGES)
     if ctx.concrete:
         p = m._RtfParser(b"")
     else:
@@ -717,6 +771,16 @@ def _k3_parts(tier):
         for n in range(1, (6 if q else 8) + 1):
             for suffix in ("", "?x"):
                 parts.append({"site": site, "len": n, "prefix": "\\u", "alphabet": "num", "suffix": suffix})
+        # two escapes in a row: \\uN[?]\\uM
+        for mid in ("", "?"):
+            if site == "full" or not q:
+                parts.append({"site": site, "len": 5, "prefix": "\\u", "alphabet": "num", "suffix": mid, "len2": 5})
+            else:
+                # one half chosen by the solver next to a fixed other half
+                parts.append({"site": site, "len": 5, "prefix": "\\u55357" + mid + "\\u", "alphabet": "num", "suffix": ""})
+                parts.append({"site": site, "len": 5, "prefix": "\\u", "alphabet": "num", "suffix": mid + "\\u56832"})
+            if not q and site == "full":
+                parts.append({"site": site, "len": 6, "prefix": "\\u", "alphabet": "num", "suffix": mid, "len2": 6})
         # \\u / \\' / nothing + free characters of the RTF alphabet
         tops = {("full", True): (4, 4, 4), ("simple", True): (3, 3, 4),
                 ("full", False): (5, 5, 5), ("simple", False): (4, 5, 5)}[(site, q)]
@@ -833,6 +897,8 @@ def _odf_length_lexemes():
         for unit in ("", "px", "in", "cm", "mm", "pt", "pc", "em", "IN"):
             out.append("9" * digits + unit)
     out += ["0.5in", " 10.25 cm ", "0cm", "1" + "0" * 309 + ".5mm"]
+    # malformed numbers: several / leading / trailing / lone decimal points
+    out += ["1.2.3cm", "1..2cm", ".5cm", "5.cm", ".cm", "..", "1.2.3", "1.5.px"]
     return out
 
 
@@ -1485,14 +1551,39 @@ def _k4_reported(md, prop):
     return False, None
 
 
+class _JoinStr(str):
+    """string literal of lifted code that stays a real str (ElementTree wants one) but joins
+    symbolic parts symbolically"""
+
+    def join(self, parts):
+        parts = list(parts)
+        if any(isinstance(x, S.CharStr) for x in parts):
+            return S.CharStr(str(self)).join(parts)
+        return str.join(self, parts)
+
+
+_ODF_LIFT = {}
+
+
+def _odf_lifted_reader():
+    import importlib
+    from vf import lift
+    if "fn" not in _ODF_LIFT:
+        sh = importlib.import_module("sharepoint2text.parsing.extractors.open_office._shared")
+        _ODF_LIFT["fn"] = lift.lift(sh.extract_odf_metadata, _CS=_JoinStr, int=S.IntShadow)
+    return _ODF_LIFT["fn"]
+
+
 def _k4_run_xml(ctx, fmt, root):
     """hand the (parsed) properties part to the format's own reader"""
     import importlib
     ex = "sharepoint2text.parsing.extractors."
     if fmt == "odf":
         m = importlib.import_module(ex + "open_office." + ctx.params.get("odf_module", "odt_extractor"))
-        return m._extract_metadata_from_context(types.SimpleNamespace(meta_root=root)) \
-            if hasattr(m, "_extract_metadata_from_context") else m._extract_metadata(root)
+        # symbolic run: the shared reader is its own source lifted to symbolic strings
+        with ctx.shadow(m, extract_odf_metadata=_odf_lifted_reader() if not ctx.concrete else None):
+            return m._extract_metadata_from_context(types.SimpleNamespace(meta_root=root)) \
+                if hasattr(m, "_extract_metadata_from_context") else m._extract_metadata(root)
     if fmt in ("docx", "pptx"):
         m = importlib.import_module(ex + f"ms_modern.{fmt}_extractor")
         with ctx.shadow(m, int=S.IntShadow):
@@ -1638,8 +1729,7 @@ def k4_xml_properties(ctx):
     focus = props[ctx.choice("focus", len(props))]
     states = ["absent", "empty", "text"] + (["repeated"] if focus in spec["repeatable"] else [])
     state = states[ctx.choice("state", len(states))]
-    if state == "repeated" and ((fmt == "odf" and _known(ctx, F_ODF_KEYWORDS)) or
-                                (fmt == "epub" and _known(ctx, F_EPUB_REPEATED))):
+    if state == "repeated" and fmt == "epub" and _known(ctx, F_EPUB_REPEATED):
         ctx.assume(False)
     values = {p: [_FIXED[p]] for p in props}
     if state == "absent":
@@ -1705,6 +1795,12 @@ def k4_xml_properties(ctx):
             _k4_compare(ctx, rep, "", spec["exact"], "absent-property-reported-non-empty", fmt=fmt, prop=p)
         elif len(stored) == 1:
             _k4_compare(ctx, rep, stored[0], spec["exact"], "property-not-reported-unchanged", fmt=fmt, prop=p)
+        elif fmt == "odf":
+            # one meta:keyword element per keyword: all of them, in document order, separated by ", "
+            joined = stored[0]
+            for v in stored[1:]:
+                joined = joined + ", " + v
+            _k4_compare(ctx, rep, joined, True, "repeated-property-value-not-reported", fmt=fmt, prop=p)
         else:
             # several values stored: each of them has to be found in what is reported
             ctx.require(_is_text(rep), "property-not-text", prop=p)
@@ -2101,12 +2197,17 @@ KERNELS = [
            outside=["results of damaged-but-accepted files"]),
     Kernel("K3", "RTF strippers never put a surrogate code point into extracted text (UTF-8 encodable)",
            k3_unicode, targets=_k3_targets, parts=_k3_parts,
-           perturb=[("demand_ascii", {"site": "full", "len": 3, "prefix": "\\u", "alphabet": "num", "suffix": ""})],
+           perturb=[("demand_ascii", {"site": "full", "len": 3, "prefix": "\\u", "alphabet": "num", "suffix": ""}),
+                    ("without_combine_surrogates", {"site": "full", "len": 5, "prefix": "\\u", "alphabet": "num", "suffix": ""}),
+                    ("without_combine_surrogates", {"site": "simple", "len": 5, "prefix": "\\u", "alphabet": "num", "suffix": ""})],
            symbolic=["every free character of the RTF fragment (digits, - ? ' space \\ { } u a f newline)",
                      "so the number N of \\uN and the byte of \\'hh are chosen by the solver"],
            stubs=["regex objects of rtf_extractor -> SymRegex over the same pattern text (stdlib parser, "
                   "backtracking order of re; validated against re)",
-                  "int -> symrun.IntShadow, chr -> range-checked chr on symbolic ints"],
+                  "int -> symrun.IntShadow, chr -> range-checked chr on symbolic ints",
+                  "_combine_surrogates (UTF-16 codec round trip) -> code-walking model on symbolic strings, compared "
+                  "with the real function on all strings of <= 4 items over a surrogate / BOM / astral alphabet in "
+                  "every run; concrete replay uses the real function through read_rtf"],
            assumptions=["input characters are no surrogates (they come out of bytes.decode)",
                         "_strip_rtf_full_with_pages / _strip_rtf_simple / _remove_ignorable_groups / "
                         "_is_skip_destination are the module's own source lifted to symbolic strings"],
@@ -2122,13 +2223,15 @@ KERNELS = [
            symbolic=["every character (32..126) of the property under focus"],
            choices=["property under focus", "absent / empty / text / repeated element", "text length"],
            stubs=["ms_modern.*.int -> symrun.IntShadow",
+                  "ODF: extract_odf_metadata runs as its own source lifted to symbolic strings (vf/lift.py) in "
+                  "symbolic runs",
                   "XLSX: workbook.properties as openpyxl hands it over (symbolic run: attribute bag; concrete "
                   "run: openpyxl's own DocumentProperties.from_tree on the written part)"],
            assumptions=["the properties part is written from the format specifications (ECMA-376-2 core properties, "
                         "ODF 1.2 office:meta, EPUB 3 package metadata), not from the readers' tag tables",
                         "EPUB values compare modulo surrounding white space (EPUB 3.3 trims them)",
-                        "repeated elements (ODF meta:keyword, EPUB dc:creator / dc:subject): each stored value must "
-                        "occur in the reported string"],
+                        "repeated ODF meta:keyword elements are reported joined by ', ' in document order; repeated "
+                        "EPUB dc:creator / dc:subject: each stored value must occur in the reported string"],
            outside=["OLE summary information (doc, xls, ppt, msg)", "PDF document information",
                     "characters outside 32..126"]),
     Kernel("K4h", "HTML: title and meta author / keywords / description reported unchanged; meta names match "
